@@ -1,10 +1,15 @@
 #!/venv/bin/python
 """Markdown table of the seeded changes and the checks that report them (from seeded/last_run.json + meta.json)."""
-import json, os
+import json, os, sys
+COMPACT = '--compact' in sys.argv
 HERE = os.path.dirname(os.path.dirname(os.path.abspath(__file__)))
 res = json.load(open(os.path.join(HERE, 'seeded', 'last_run.json')))
-print('| seed | what was changed (sub-agent\'s summary) | needs | reported by (exit 1) | first finding of the owning property |')
-print('|---|---|---|---|---|')
+if COMPACT:
+    print('| seed | what was changed (sub-agent\'s summary, truncated) | checks that exit 1 | rule of the owning property that names it |')
+    print('|---|---|---|---|')
+else:
+    print('| seed | what was changed (sub-agent\'s summary) | needs | reported by (exit 1) | first finding of the owning property |')
+    print('|---|---|---|---|---|')
 for seed in sorted(res):
     m = json.load(open(os.path.join(HERE, 'seeded', seed, 'meta.json')))
     out = res[seed]
@@ -19,4 +24,8 @@ for seed in sorted(res):
         fired = ['MISSED' + (' (exit 2: %s)' % ','.join(k for k, v in codes.items() if v == 2) if codes else '')]
     def clean(s):
         return str(s).replace('|', '/').replace('\n', ' ')
-    print('| %s | %s | %s | %s | %s |' % (seed, clean(m.get('summary', ''))[:170], clean(m.get('needs', ''))[:120], ' '.join(fired), first))
+    if COMPACT:
+        owns = sorted({v.split('|')[0] for v in (own.get('violations') or [])})
+        print('| %s | %s | %s | %s |' % (seed, clean(m.get('summary', ''))[:110], ' '.join(fired), ', '.join(owns[:3])))
+    else:
+        print('| %s | %s | %s | %s | %s |' % (seed, clean(m.get('summary', ''))[:170], clean(m.get('needs', ''))[:120], ' '.join(fired), first))
